@@ -87,6 +87,33 @@ def sequential_corpus(ctx):
 SEQUENTIAL_PARTS.append(sequential_corpus)
 
 
+def adversarial_arguments(ctx):
+    """Implementation-only smoke run with extreme arguments on every file system type and the identity manager
+    (harness command `advers`): every call must return (no panic, no hang, no fatal runtime error)."""
+    import json, os
+    from .. import build_go, sh, GOENV
+    ok, out, binp = build_go("")
+    if not ok:
+        ctx.broken("harness-build", "the Go harness does not build against /repo's working tree", out[-3000:])
+        return
+    rc, out = sh("ulimit -v 16000000; %s advers -out %s -name advers" % (binp, ctx.dir), cwd=ctx.dir, env=GOENV, timeout=900)
+    res = {}
+    try:
+        res = json.load(open(os.path.join(ctx.dir, "advers.advers.json")))
+    except Exception:
+        pass
+    fails = res.get("failures") or []
+    ctx.coverage.setdefault("sequential_outcomes", {})["adversarial"] = {"calls_groups": res.get("cases", 0), "failures": len(fails), "exit": rc}
+    ctx.coverage["evaluations"] += res.get("cases", 0)
+    if rc != 0 or fails:
+        what = "a call with extreme arguments panicked, did not return or crashed the process: %s" % (fails[:2] if fails else out[-300:])
+        ctx.violation("seq-advers", what, {"engine": "c07-advers", "failures": fails, "exit": rc, "log": out[-2000:],
+                                           "replay": "harness/bin/avfscheck-base advers -out <dir> -name advers"})
+
+
+SEQUENTIAL_PARTS.append(adversarial_arguments)
+
+
 def check_C07(ctx):
     ctx.level = "proof"
     ctx.coverage["level_claimed"] = {
